@@ -8,6 +8,11 @@ From SV Require Import model.Nglob.
 From SV Require Import model.NglobGolden.
 From SV Require Import proofs.NglobProofs.
 From SV Require Import proofs.NglobTie.
+From SV Require Import model.GlobSem.
+From SV Require Import proofs.NglobBackref.
+From SV Require Import proofs.NglobRefute.
+From SV Require Import proofs.NglobNamed.
+From SV Require Import proofs.NglobShape.
 Import ListNotations.
 Open Scope N_scope.
 
@@ -53,6 +58,136 @@ Theorem C17_matcher_sound_complete :
   forall r s, wf_re r = true -> (accepts r s = true <-> exists e', mt r [] s e').
 Proof. exact accepts_spec. Qed.
 
+(* Non-vacuity of (1): the pattern d/${*n}-${*n}.t, four old paths, one deleted, two added. *)
+Definition ex_pat : str := [100;47;36;123;42;110;125;45;36;123;42;110;125;46;116].
+Definition ex_fs : list str := [[100;47;97;45;97;46;116]; [100;47;97;45;98;46;116]; [100;47;98;45;98;46;116]; [120]].
+Definition ex_deleted : list str := [[100;47;97;45;97;46;116]].
+Definition ex_added : list str := [[100;47;99;45;99;46;116]; [121]].
+Definition ex_fs' : list str := [[100;47;97;45;98;46;116]; [100;47;98;45;98;46;116]; [120]; [100;47;99;45;99;46;116]; [121]].
+
+(* (2) A repeated name only matches equal substrings, for EVERY pattern and substitution
+   dictionary.  [ps] is the part list of the compiled regex (convert_nglob_to_regex returns the
+   concatenation of their texts).  Whenever the regex matches a path, the path splits into one
+   piece per part, and for the part that defines the group of a name and every later
+   back-reference to that name the pieces are the same text, which is also the value reported for
+   the name (the key component of NamedGlob.results).  Follows from the semantics of named groups
+   and back-references and from the shape of the compiler's output (named groups only at the top
+   level of the part list, each name defined once: C17_compiled_parts_shape). *)
+Theorem C17_backref_equal_substrings :
+  forall (p : str) (subs : subs_t) (ps : list re) (path : str) (e' : env),
+    conv_regex p subs = COk ps ->
+    mt (rcat ps) [] path e' ->
+    exists pieces, concat pieces = path /\ length pieces = length ps /\
+      forall i j n a, (i < j)%nat ->
+        nth_error ps i = Some (RGrp n a) -> nth_error ps j = Some (RRef n) ->
+        exists v, nth_error pieces i = Some v /\ nth_error pieces j = Some v /\ env_get n e' = Some v.
+Proof. exact backref_equal_substrings_all. Qed.
+
+Theorem C17_compiled_parts_shape :
+  forall p subs ps, conv_regex p subs = COk ps -> parts_ok ps = true.
+Proof. exact conv_regex_parts_ok. Qed.
+
+Example C17_example_backref :
+  match conv_regex ex_pat [] with
+  | COk ps => parts_ok ps = true
+              /\ nth_error ps 1 = Some (RGrp [110] re_star) /\ nth_error ps 3 = Some (RRef [110])
+              /\ accepts (rcat ps) [100;47;97;45;97;46;116] = true
+              /\ accepts (rcat ps) [100;47;97;45;98;46;116] = false
+  | CErr _ => False
+  end.
+Proof. vm_compute. repeat split. Qed.
+
+(* (3, partial) A named wildcard in place of an anonymous `*`: on the level of the regex
+   semantics, wrapping one part of a part list into a named group that no later part refers to
+   never changes which strings are accepted.  The compiler gives a star-like named wildcard the
+   same post-processing as a bare `*` (same part with the group around it, see the Example; the
+   implementation oracle O3 checks acceptance of both forms on generated patterns); what is NOT
+   proved is that equality of the two compiled part lists for all patterns, nor
+   compile_regex_correct on a fragment (design.d/C17.md). *)
+Theorem C17_named_group_wrapping_preserves_acceptance_partial :
+  forall (ps1 : list re) (a : re) (ps2 : list re) (n : str) (s : str),
+    forallb (noref n) ps2 = true ->
+    (accepted (rcat (ps1 ++ a :: ps2)) s <-> accepted (rcat (ps1 ++ RGrp n a :: ps2)) s).
+Proof. exact named_group_wrapping_preserves_acceptance. Qed.
+
+Example C17_example_named_vs_star :
+  conv_regex [120;47;42;47;121] [] = COk ([RStr [120;47]] ++ re_plus :: [RStr [47;121]])
+  /\ conv_regex [120;47;36;123;42;110;125;47;121] [] = COk ([RStr [120;47]] ++ RGrp [110] re_plus :: [RStr [47;121]])
+  /\ forallb (noref [110]) [RStr [47;121]] = true.
+Proof. vm_compute. repeat split. Qed.
+
+(* The full statement of the property on the model: matcher = documented semantics, recorded set =
+   accepted existing paths = standard glob (without repeated names) on every finite tree, a named
+   wildcard in place of an anonymous `*` never changes acceptance.  NOT proved; it is false of the
+   current code (next theorems).  Proved parts: (1), (2) above; see design.d/C17.md for what is
+   missing (compile_regex_correct on a fragment, candidate completeness). *)
+Definition C17_full : Prop :=
+  forall (p : str) (subs : subs_t) (g : ng) (gp : str),
+    ng_make p subs = COk g -> conv_glob p subs = COk gp ->
+    (forall path b, wf_path path = true -> nglob_ref true p subs path = Some b -> ng_accepts g path = b)
+    /\ (forall t q, In q (files (scan key_eqb (ng_mv g) (glob_paths t gp)))
+                    <-> In q (all_paths t) /\ ng_accepts g q = true)
+    /\ (NoDup (name_occurrences (tokenize p)) ->
+        forall t q, In q (files (scan key_eqb (ng_mv g) (glob_paths t gp))) <-> In q (glob_paths t gp))
+    /\ (forall p2 g2 pre post n,
+          tokenize p = pre ++ TStar :: post -> tokenize p2 = pre ++ TName n :: post ->
+          ~ In n (name_occurrences (tokenize p)) -> subs_get n subs = None ->
+          ng_make p2 subs = COk g2 -> forall path, ng_accepts g2 path = ng_accepts g path).
+
+Theorem C17_full_refuted : ~ C17_full.
+Proof. exact C17_full_statement_refuted. Qed.
+
+(* The individual defects, each with a concrete tree / pattern / path computed in the model and
+   replayed on the implementation by the oracle (harness/p_c17.py WITNESSES). *)
+
+(* `*[!a]`: [!a] becomes [^a], which matches '/': "a/" is accepted but never returned by glob. *)
+Theorem C17_negated_class_accepts_separator_refuted :
+  exists t p subs path,
+    recorded t p subs = Some [] /\ accepted_existing t p subs = Some [path]
+    /\ nglob_ref false p subs path = Some false /\ nglob_ref true p subs path = Some false.
+Proof. exact negated_class_accepts_separator_refuted. Qed.
+
+(* consequently an update (directory a/ created) reports a change that a rescan does not see *)
+Theorem C17_update_differs_from_rescan_refuted :
+  exists p subs g t',
+    ng_make p subs = COk g /\ recorded [] p subs = Some [] /\ recorded t' p subs = Some []
+    /\ will_change key_eqb (ng_mv g) [] [] (all_paths t') <> None.
+Proof. exact update_differs_from_rescan_refuted. Qed.
+
+(* `a` does not record the directory a/ that the standard glob returns *)
+Theorem C17_directory_dropped_refuted :
+  exists t p subs, recorded t p subs = Some [] /\ std_glob t p subs = Some [[97; 47]].
+Proof. exact directory_dropped_refuted. Qed.
+
+(* `f/**` with a regular file f records the non-existing path "f/" *)
+Theorem C17_nonexistent_directory_recorded_refuted :
+  exists t p subs path,
+    recorded t p subs = Some [path] /\ mem_str path (all_paths t) = false
+    /\ accepted_existing t p subs = Some [].
+Proof. exact nonexistent_directory_recorded_refuted. Qed.
+
+(* `d/*${*n}` and `d/**/*` accept "d/" (an empty last component) *)
+Theorem C17_empty_component_accepted_refuted :
+  (exists t p subs path,
+     recorded t p subs = Some [] /\ accepted_existing t p subs = Some [path]
+     /\ nglob_ref false p subs path = Some false)
+  /\ (exists t p subs path,
+     recorded t p subs = Some [] /\ accepted_existing t p subs = Some [path]
+     /\ nglob_ref false p subs path = Some false /\ p = [100;47;42;42;47;42]).
+Proof. exact empty_component_accepted_both_refuted. Qed.
+
+(* `d/**` does not record a file whose name contains a newline *)
+Theorem C17_newline_not_matched_refuted :
+  exists t p subs path,
+    std_glob t p subs = Some [[100;47]; path] /\ recorded t p subs = Some [[100;47]]
+    /\ nglob_ref false p subs path = Some true.
+Proof. exact newline_not_matched_by_recursive_wildcard_refuted. Qed.
+
+(* `*${*n}aa` with n = `**`: the sub-pattern is compiled out of context *)
+Theorem C17_recursive_sub_pattern_refuted :
+  exists t p subs path, recorded t p subs = Some [] /\ accepted_existing t p subs = Some [path].
+Proof. exact recursive_sub_pattern_refuted. Qed.
+
 (* The tie: constants regenerated from the source on every run are the ones the model uses, and
    the fingerprinted functions are unchanged. *)
 Theorem C17_model_tied_to_source :
@@ -67,22 +202,7 @@ Theorem C17_model_tied_to_source :
   /\ pr re_plus = gen_post_trail_plus /\ pr re_optslash = gen_post_optslash
   /\ re_escape_specials = gen_escape_specials
   /\ gen_fingerprints = golden_fingerprints.
-Proof.
-  split; [exact tokenizer_source_tied|].
-  split; [repeat split; apply fragments_tied|].
-  split; [apply templates_tied|]. split; [apply templates_tied|].
-  split; [apply templates_tied|]. split; [apply templates_tied|].
-  split; [apply post_processing_tied|]. split; [apply post_processing_tied|].
-  split; [apply post_processing_tied|].
-  split; [exact escape_tied|exact fingerprints_tied].
-Qed.
-
-(* Non-vacuity of (1): the pattern d/${*n}-${*n}.t, four old paths, one deleted, two added. *)
-Definition ex_pat : str := [100;47;36;123;42;110;125;45;36;123;42;110;125;46;116].
-Definition ex_fs : list str := [[100;47;97;45;97;46;116]; [100;47;97;45;98;46;116]; [100;47;98;45;98;46;116]; [120]].
-Definition ex_deleted : list str := [[100;47;97;45;97;46;116]].
-Definition ex_added : list str := [[100;47;99;45;99;46;116]; [121]].
-Definition ex_fs' : list str := [[100;47;97;45;98;46;116]; [100;47;98;45;98;46;116]; [120]; [100;47;99;45;99;46;116]; [121]].
+Proof. exact model_tied_to_source. Qed.
 
 Example C17_example_update :
   match ng_make ex_pat [] with
